@@ -662,7 +662,12 @@ class MarkdownNormalizer(Renderer):
         return text
 
     def render_line_break(self, element: inline.LineBreak) -> str:
-        return "\n" if element.soft else "\\\n"
+        if element.soft:
+            return "\n"
+        # What follows a hard break always starts a line, so an escaped period after digits
+        # there ("1\\.") must keep its escape, exactly as at the start of the paragraph.
+        self._current_inline_text = ""
+        return "\\\n"
 
     def render_code_span(self, element: inline.CodeSpan) -> str:
         text = element.children
